@@ -1,0 +1,75 @@
+//go:build verif
+
+// Contracts for peer_gater.go (properties C09, C13). Comment-only.
+
+package pubsub
+
+// Distinct stats objects are non-nil and allocated; peers sharing an IP share one object.
+//@ spec fn gaterRep(pg *peerGater) bool = pg.peerStats != nil && pg.ipStats != nil && pg.params != nil &&
+//@      (forall q string :: q in pg.peerStats ==> pg.peerStats[q] != nil && allocated(pg.peerStats[q]) && pg.peerStats[q].connected >= 0) &&
+//@      (forall ip string :: ip in pg.ipStats ==> pg.ipStats[ip] != nil && allocated(pg.ipStats[ip]) && pg.ipStats[ip].connected >= 0)
+
+// gaterOut[p]: outbound streams of p that the gater has been told about and not yet seen closed
+// (definitional ghost: +1 in OnNewOutboundStream, -1 in removePeerStats(p, true)).
+//@ ghost var gaterOut mmap[string]int
+
+//@ func (*peerGater).OnNewOutboundStream
+//@   property C13
+//@   modifies monitor(peerGater.Mutex), gaterOut
+//@   ghost-effect opened: gaterOut[p] == old(gaterOut[p]) + 1 && (forall q string :: q != p ==> gaterOut[q] == old(gaterOut[q]))
+//@   ensures tracked: p in pg.peerStats && pg.peerStats[p].connected >= 1 && (lin(p in pg.peerStats) ==> pg.peerStats[p] == lin(pg.peerStats[p]) &&
+//@        pg.peerStats[p].connected == lin(pg.peerStats[p].connected) + 1)
+//@   ensures released: !held(pg.Mutex)
+
+//@ monitor peerGater.Mutex
+//@   protects map(peerStats), map(ipStats), all(peerGaterStats)
+//@   invariant rep: gaterRep(self)
+
+// getIPStats / getPeerStats: the existing object, or the (possibly new, zeroed) object of the peer's IP.
+//@ func (*peerGater).getIPStats
+//@   property C13
+//@   holds peerGater.Mutex
+//@   requires rep: gaterRep(pg)
+//@   noframe
+//@   ensures object: result != nil && allocated(result) && result.connected >= 0 && gaterRep(pg)
+//@   ensures peers-kept: forall q string :: (q in pg.peerStats) == old(q in pg.peerStats) && pg.peerStats[q] == old(pg.peerStats[q])
+//@   ensures counts-kept: forall o *peerGaterStats :: old(allocated(o)) ==> o.connected == old(o.connected) && o.expire == old(o.expire)
+
+//@ func (*peerGater).getPeerStats
+//@   property C13
+//@   holds peerGater.Mutex
+//@   requires rep: gaterRep(pg)
+//@   noframe
+//@   ensures entry: p in pg.peerStats && pg.peerStats[p] == result && result != nil && allocated(result) && result.connected >= 0 && gaterRep(pg)
+//@   ensures existing-kept: old(p in pg.peerStats) ==> result == old(pg.peerStats[p])
+//@   ensures others: forall q string :: q != p ==> (q in pg.peerStats) == old(q in pg.peerStats) && pg.peerStats[q] == old(pg.peerStats[q])
+//@   ensures counts-kept: forall o *peerGaterStats :: old(allocated(o)) ==> o.connected == old(o.connected) && o.expire == old(o.expire)
+
+// removePeerStats (C13): when a peer's OUTBOUND stream closes the gater forgets the peer - its
+// entry leaves peerStats whatever other peers share its IP statistics; the shared statistics
+// lose one connection and start expiring when the last one is gone. Closing an inbound stream
+// forgets a peer only if no connection is recorded for its statistics. Nobody else's entry changes.
+//@ func (*peerGater).removePeerStats
+//@   property C13
+//@   modifies monitor(peerGater.Mutex), clock, gaterOut
+//@   ghost-effect closed: gaterOut[p] == ite(outbound, max(old(gaterOut[p]) - 1, 0), old(gaterOut[p])) && (forall q string :: q != p ==> gaterOut[q] == old(gaterOut[q]))
+//@   ensures outbound-closed-forgets: outbound ==> !(p in pg.peerStats)
+//@   ensures inbound-only-peer-forgotten: !outbound && old(gaterOut[p]) == 0 ==> !(p in pg.peerStats)
+//@   ensures inbound-only-forgets: !outbound && lin(p in pg.peerStats) && lin(pg.peerStats[p].connected) == 0 ==> !(p in pg.peerStats)
+//@   ensures inbound-keeps-connected: !outbound && lin(p in pg.peerStats) && lin(pg.peerStats[p].connected) > 0 ==> p in pg.peerStats && pg.peerStats[p] == lin(pg.peerStats[p])
+//@   ensures connection-counted: outbound && lin(p in pg.peerStats) ==> lin(pg.peerStats[p]).connected == max(lin(pg.peerStats[p].connected) - 1, 0)
+//@   ensures expiry-started: lin(p in pg.peerStats) && lin(pg.peerStats[p]).connected == 0 ==> lin(pg.peerStats[p]).expire == now + pg.params.RetainStats
+//@   ensures others: forall q string :: q != p ==> (q in pg.peerStats) == lin(q in pg.peerStats) && pg.peerStats[q] == lin(pg.peerStats[q])
+//@   ensures released: !held(pg.Mutex)
+
+//@ func (*peerGater).OnClosedOutboundStream
+//@   property C13
+//@   modifies monitor(peerGater.Mutex), clock, gaterOut
+//@   ensures forgets: calls((*peerGater).removePeerStats) == old(calls((*peerGater).removePeerStats)) + 1 &&
+//@        lastarg((*peerGater).removePeerStats, 1) == p && lastarg((*peerGater).removePeerStats, 2)
+
+//@ func (*peerGater).OnClosedIncomingStream
+//@   property C13
+//@   modifies monitor(peerGater.Mutex), clock, gaterOut
+//@   ensures forgets: calls((*peerGater).removePeerStats) == old(calls((*peerGater).removePeerStats)) + 1 &&
+//@        lastarg((*peerGater).removePeerStats, 1) == p && !lastarg((*peerGater).removePeerStats, 2)
